@@ -78,7 +78,12 @@ def run(ctx, res):
     for p in APE.run(prog, cg, fi, bound=APE.BOUND).paths:
         if p.end == "exit":
             n = [e for e in p.events if e.kind == "store" and e.a.endswith("->n_iters")]
-            res.check(len(n) == 1, "C07.R2", site(fi, "once"), "one increment per iterator", "%d increments per iterator" % len(n), None, p.describe(fi))
+            mk = p.calls("mtbl_iter_init")
+            counted = len(mk) == 1 and p.ret() == mk[0].c
+            res.check((len(n) == 1 and counted) or (len(n) == 0 and not mk), "C07.R2", site(fi, "once"),
+                      "the open-iterator count is incremented exactly when an iterator with the counting free function is handed out",
+                      "n_iters is incremented %d time(s) on a path that %s: the count never returns to zero and every later reload is deferred forever"
+                      % (len(n), "returns a counted iterator" if counted else "hands out no iterator to undo it"), fi.loc(fi.body), p.describe(fi))
     for p in APE.run(prog, cg, ff, bound=APE.BOUND).paths:
         if p.end != "exit":
             continue
